@@ -135,3 +135,25 @@ def snapshot_model(model: Any) -> dict[str, Any]:
         "graphs": graphs,
         "opsets": sorted([d, v] for d, v in model.opset_imports.items()),
     }
+
+
+def node_versions(model: Any) -> list[list[Any]]:
+    """[node token, node.version or 0] for every node of the model, nested graphs and functions included."""
+    out: list[list[Any]] = []
+
+    def walk(graph: Any) -> None:
+        for node in graph:
+            out.append([tok(node, "n"), getattr(node, "version", None) or 0])
+            for attr in node.attributes.values():
+                value = getattr(attr, "value", None)
+                type_name = getattr(getattr(attr, "type", None), "name", "")
+                if type_name == "GRAPH" and value is not None:
+                    walk(value)
+                elif type_name == "GRAPHS" and value is not None:
+                    for g in value:
+                        walk(g)
+
+    walk(model.graph)
+    for f in model.functions.values():
+        walk(f)
+    return out
